@@ -371,6 +371,10 @@ structure FlowInst (P : Type) where
   defs : List ArgDef := []
   args : List Str := []
   rows : List (Row P) := []
+  /-- flow names the instance refers to (`start_new_flow` rows, inserted blocks included).
+  They reach the UUID dictionary through `flow.record_global_uuids` — i.e. only if the flow
+  is still in the `flows` dict of `parse_all_flows` when the container is filled. -/
+  refs : List Str := []
 
 /-- registry of data sheets after the index was processed: name ↦ row ids -/
 abbrev DataReg := List (Str × List Str)
@@ -489,8 +493,11 @@ structure Workbook where
   /-- (name, uuid) of every flow / group reference in document order -/
   flowUuids : List (Str × Str) := []
   groupUuids : List (Str × Str) := []
-  /-- names the UUID dictionary knows for flows after `update_global_uuids`' recording
-  phase: created flows **and** flows merely referenced by start_new_flow / campaign events -/
+  /-- further names the UUID dictionary knows for flows after `update_global_uuids`'
+  recording phase: flows referenced by the events of the campaigns that are still in
+  `campaign_parsers` (a later `create_campaign` row of the same name replaces the earlier
+  parser, whose events are then never looked at).  The created flows and the flows they
+  refer to are computed by `knownFlowNames`. -/
   flowNames : List Str := []
   /-- `flow` cells of the trigger rows -/
   triggers : List Str := []
@@ -515,6 +522,31 @@ def FlowDef.compile (reg : DataReg) (d : FlowDef) : Except Fault Unit :=
 def compileFlows (reg : DataReg) (ds : List FlowDef) : Except Fault Unit :=
   (ds.mapM (FlowDef.compile reg)).map (fun _ => ())
 
+/-! ### redefinition: the `flows` dict of `parse_all_flows`
+
+Every create_flow row is parsed (`compileFlows` above: nothing is skipped), and only then
+`flows[flow.name] = flow` is executed: a later flow of the same name takes the place of the
+earlier one ("Multiple definitions of flow … Overwriting", a warning).  So a replaced
+definition is *checked* like any other; what it loses is its place in the container — its
+name-only references never reach the UUID dictionary. -/
+
+/-- `flows[name] = flow` on an insertion-ordered dict: value replaced, position kept -/
+def putFlow (n : Str) (refs : List Str) : List (Str × List Str) → List (Str × List Str)
+  | [] => [(n, refs)]
+  | (n', r') :: rest => if n' = n then (n, refs) :: rest else (n', r') :: putFlow n refs rest
+
+/-- the flows that reach the container, with the names each refers to -/
+def survivors (ds : List FlowDef) : List (Str × List Str) :=
+  (ds.flatMap (·.insts)).foldl (fun acc i => putFlow i.name i.refs acc) []
+
+/-- `uuid_dict.contains_flow` at the time the triggers are recorded: the surviving flows, the
+flows they refer to, every name that came with an `obj_id` (recorded while the row was
+parsed, whether or not its flow survives), and the surviving campaigns' flows.  (A flow that
+is only *referenced* counts — finding F-C06-b — that is what the code does.) -/
+def knownFlowNames (w : Workbook) : List Str :=
+  let s := survivors w.flows
+  s.map (·.1) ++ s.flatMap (·.2) ++ w.flowUuids.map (·.1) ++ w.flowNames
+
 def checkTriggers (flowNames : List Str) : List Str → Except Fault Unit
   | [] => .ok ()
   | t :: ts => if t ∈ flowNames then checkTriggers flowNames ts else .error (.triggerUnknownFlow t)
@@ -537,7 +569,7 @@ def createFlows {D : Type} (doc : Workbook → D) (w : Workbook) : Except Fault 
           match recordAll [] w.groupUuids with
           | .error f => .error f
           | .ok _ =>
-            match checkTriggers w.flowNames w.triggers with
+            match checkTriggers (knownFlowNames w) w.triggers with
             | .error f => .error f
             | .ok _ => .ok (doc w)
 
